@@ -636,7 +636,7 @@ class SinkUpdate(NodeUpdate):
         d = NodeUpdate.spec_funcs(self)
         from .async_common import async_spec_funcs
         for k, v in async_spec_funcs(self).items():
-            if k.startswith('builtin_inspect.') or k in ('builtin_gen.is_future', 'builtin_asyncio.isfuture', 'builtin_asyncio.iscoroutine'):
+            if k.startswith('builtin_inspect.') or k in ('builtin_gen.is_future', 'builtin_asyncio.isfuture', 'builtin_asyncio.iscoroutine', 'isinstance'):
                 d[k] = v
 
         def isawaitable(I, args, kwargs, fr):
